@@ -22,8 +22,7 @@ def impl_generate(vendor, cls, address, size, dp, iu, sv, d):
     from suit_generator import cmd_mpi
 
     out = os.path.join(d, "mpi.hex")
-    if os.path.exists(out):
-        os.unlink(out)
+    common.make_stale(out)
     try:
         cmd_mpi.main(mpi="generate", output_file=out, vendor_name=vendor, class_name=cls, address=address, size=size,
                      downgrade_prevention_enabled=dp, independent_updates=iu, signature_verification=sv)
@@ -36,8 +35,7 @@ def impl_merge(address, size, files, d):
     from suit_generator import cmd_mpi
 
     out = os.path.join(d, "merged.hex")
-    if os.path.exists(out):
-        os.unlink(out)
+    common.make_stale(out)
     paths = []
     for i, t in enumerate(files):
         p = os.path.join(d, f"in{i}.hex")
@@ -71,7 +69,7 @@ def gen_generate(tier, rng):
 def gen_merge(tier, rng):
     n = 250 if tier == "quick" else 6000
     for k in range(n):
-        address = rng.choice([0x0E1E9000, 0xFF00, 0x10000 - 96, 0x2000])
+        address = rng.choice([0x0E1E9000, 0xFF00, 0x10000 - 96, 0x2000, 0, 0, 0xFFFFF000])      # an area at address 0 is an area
         size = rng.choice([96, 144, 240, 384, 1024])
         recs = []
         nrec = rng.randint(0, 8)
@@ -84,11 +82,47 @@ def gen_merge(tier, rng):
             recs[-1] = (address + size - 48, 48)
             recs = list(dict.fromkeys(recs))
         elif mode == "outside":
-            recs.append(rng.choice([(address - 1, 48), (address + size - 47, 48), (address + size, 48), (address - 48, 48)]))
+            recs.append(rng.choice([c for c in [(address - 1, 48), (address + size - 47, 48), (address + size, 48), (address - 48, 48)] if c[0] >= 0]))
         elif mode == "overlap" and recs:
             a0 = recs[0][0]
             recs.append((a0 + rng.choice([0, 1, 47]), 48))
         yield (address, size, recs, mode)
+
+
+def cli_cases(res, drv, tier):
+    """mpi generate through the real command line: address and size written in decimal and in hexadecimal"""
+    import tempfile
+    from concurrent.futures import ThreadPoolExecutor
+    cases = []
+    for n in ([4096, 65536, 236883968, 10000000, 0] if tier == "quick" else common.CLI_NUMBERS + [236883968]):
+        for sp in common.spellings(n)[: (2 if tier == "quick" else 4)]:
+            cases.append(("address", n, sp))
+    for n in (48, 64, 100, 256):
+        for sp in common.spellings(n)[:2]:
+            cases.append(("size", n, sp))
+    with tempfile.TemporaryDirectory(prefix="verif_c12cli_") as d:
+        def one(k):
+            which, n, sp = cases[k]
+            out = os.path.join(d, f"m{k}.hex")
+            common.make_stale(out)
+            rc, log = common.run_cli(["mpi", "generate", "--output-file", out, "--vendor-name", "nordicsemi.com", "--class-name", "cls", "--address",
+                                      sp if which == "address" else "0x1000", "--size", sp if which == "size" else "48"], d)
+            return rc, log, (open(out).read() if common.was_written(out) else None)
+        with ThreadPoolExecutor(max_workers=12) as ex:
+            outs = list(ex.map(one, range(len(cases))))
+    for (which, n, sp), (rc, log, text) in zip(cases, outs):
+        res.case(["cli-mpi", which, n, sp], nontrivial=True)
+        res.count("cli:mpi:" + which)
+        m = drv.call({"op": "mpi.generate", "vendor": "nordicsemi.com", "cls": "cls", "address": n if which == "address" else 0x1000,
+                      "size": n if which == "size" else 48, "dp": False, "iu": False, "sv": None})
+        if rc != 0 or text is None:
+            if "ok" in m:
+                res.spec_failures.append({"cli": "mpi generate", "argument": [which, sp], "what": f"the command line refused {which} = {sp} (exit {rc})", "log": log[-300:]})
+            continue
+        img = drv.call({"op": "ihex.read", "text": text})
+        if img.get("ok") != m.get("ok"):
+            res.spec_failures.append({"cli": "mpi generate", "argument": [which, sp], "denotes": n,
+                                      "what": f"{which} written as {sp} on the command line was not read as {n}: the image differs from that for the number"})
 
 
 def run(tier: str, seed: int) -> int:
@@ -165,6 +199,7 @@ def run(tier: str, seed: int) -> int:
                     continue  # no inputs: minaddr() of nothing; outside the domain
                 if impl != model:
                     res.mismatches.append({"op": "mpi.merge", "request": req, "impl": impl, "model": model})
+    cli_cases(res, drv, tier)
     drv.close()
     return finish(res, st, RULE, NOTE)
 
